@@ -3,7 +3,7 @@
 import ast
 import re as re_
 
-from .. import blocks, dtypes, dunder_sub, misc_guards, polarity, proto, roles
+from .. import blocks, dtypes, dunder_sub, gridfun, misc_guards, polarity, proto, roles
 from ..core import AnalysisError
 from ..proto import NC, NCEval
 from ..src import arg_names, calls_in, unparse
@@ -448,6 +448,7 @@ def run(ctx):
     dtypes.dtype_folds(ctx)
     block_matvec(ctx)
     gf_algebra(ctx)
+    gridfun.representations(ctx)
     space_hash(ctx)
     combinator_shapes(ctx)
     dunder_algebra(ctx)
